@@ -176,6 +176,30 @@ def run(ctx):
         if not any(v.rule == R_leak and v.key.startswith(wpath) for v in ctx.violations):
             ctx.ok(R_leak, {"writer": wpath})
 
+    # short writes: only write_all may put archive bytes on the staged file
+    R_short = ctx.rule("C12.no-short-write-accepted", "archive bytes reach the staged file through write_all only — a bare write() whose byte count is dropped accepts a partial write", floor=50)
+    import re as _re
+    for p in sorted(cg.local_reachable(list(WRITERS))):
+        f = cg.fns[p]
+        nb = 0
+        for bb, t in iter_calls(f):
+            c = mirg.callee(t) or ""
+            if _re.search(r"(std::io::Write|io::Write)>?::write$", c) or _re.search(r" as std::io::Write>::write$", c):
+                # the returned count must be consumed by a comparison / arithmetic (a hand-written write loop)
+                cnt_used = False
+                du = mirg.DefUse(f)
+                dl = mirg.plocal(t["d"])
+                for b2 in f.mir["blocks"]:
+                    for st in b2["s"]:
+                        if st[0] == "=" and st[2][0] == "bin" and any(mirg.op_local(o) is not None and dl in du.slice_back(mirg.op_local(o), depth=6)[0] for o in (st[2][2], st[2][3])):
+                            cnt_used = True
+                if not cnt_used:
+                    nb += 1
+                    ctx.bad(R_short, "%s|bare-write" % p, "%s:%d" % (f.file, t["ln"]), "`write()` used where the number of bytes written is ignored",
+                            "when the kernel accepts only part of the buffer (full disk, quota, size limit) the truncated temporary is still committed over the destination and build returns Ok")
+        if not nb:
+            ctx.ok(R_short, p)
+
     # reachable set: no other fs mutation
     reach = cg.local_reachable(list(WRITERS))
     for p in sorted(reach):
